@@ -51,9 +51,11 @@ properties! {
     "C02" => c02,
     "C03" => c03,
     "C04" => c04,
+    "C05" => c05,
     "C07" => c07,
     "C08" => c08,
     "C09" => c09,
+    "C10" => c10,
     "C18" => c18,
 }
 
